@@ -552,3 +552,23 @@ def model_rewrites(ctx: Ctx, cls_name: str) -> list[tuple[ast.AST, str]]:
                                          f"'{unparse(v)[:40]}' instead of "
                                          "the value it was given"))
     return probs
+
+
+def model_rejects(ctx: Ctx, cls_name: str) -> list[tuple[ast.AST, str]]:
+    """Validators of a pydantic model class that can REJECT a record whose
+    fields are all present and of the declared types (a ``raise`` inside a
+    field / model validator)."""
+    cls = ctx.index.cls(cls_name)
+    out: list[tuple[ast.AST, str]] = []
+    for st in cls.node.body:
+        if isinstance(st, ast.FunctionDef) and any(
+                ((dotted(d.func) if isinstance(d, ast.Call) else dotted(d))
+                 or "").split(".")[-1] in ("field_validator", "validator",
+                                            "model_validator",
+                                            "root_validator")
+                for d in st.decorator_list):
+            for r in ast.walk(st):
+                if isinstance(r, ast.Raise):
+                    out.append((r, f"validator {st.name} raises: "
+                                   f"'{unparse(r)[:60]}'"))
+    return out
